@@ -98,7 +98,9 @@ EXPECTED_PROBES = [
     "probe.poll_found_nothing", "probe.policy_push_rejected", "probe.two_stage",
     "probe.configured_policy_on_shifted_or_reneging", "probe.shift_first_arrival_in_later_shift",
     "probe.batch_of_one_with_timeout_processed_at_once",
-    "probe.outside_change_before_run", "probe.outside_change_while_paused", "probe.outside_limit_raised_under_backlog",
+    "probe.shift_boundary_truncates_below_float", "probe.gate_time_truncates_below_float",
+    "probe.batch_timeout_truncates_below_float", "probe.raise_at_truncated_boundary_with_backlog",
+    "probe.zero_capacity_queue", "probe.outside_change_before_run", "probe.outside_change_while_paused", "probe.outside_limit_raised_under_backlog",
     "probe.outside_grace_ended_by_trigger", "probe.policy_purge_removed", "probe.policy_purge_left_3plus", "probe.policy_query", "probe.pipeline_purge_removed",
 ]
 SHRINK_SKIP = ("kind", "type", "model", "mode", "flow", "flow_weights", "max_p", "weight", "prob", "op")
@@ -114,15 +116,33 @@ FLOWS = ("f0", "f1", "f2", "f3")
 # generation
 # ---------------------------------------------------------------------------
 
-def _cap(rng, lo=1, hi=5, p_none=0.4):
-    return None if rng.random() < p_none else rng.randint(lo, hi)
+def _cap(rng, lo=1, hi=5, p_none=0.4, zero=False):
+    """capacity draw; boundary values on purpose: the minimum the constructor accepts (0 where `zero`) and 1"""
+    if rng.random() < p_none:
+        return None
+    r = rng.random()
+    if zero and r < 0.12:
+        return 0
+    if r < 0.3:
+        return lo
+    return rng.randint(lo, hi)
+
+
+# decimals (in ms) whose float -> integer-nanosecond conversion truncates BELOW the value: int(4.1 * 1e9) == 4_099_999_999
+BAD_MS = [k for k in range(1000, 9000) if int((k / 1000) * 1e9) != k * 10**6]
+
+
+def _ms_times(rng, n):
+    """n ascending millisecond values, mostly non-round-tripping ones (4.1 s, 2.01 s, 8.2 s, ...)"""
+    pool = [4100, 2010, 8200, 1001, 2002] + rng.sample(BAD_MS, 6) + [rng.randrange(1000, 6000) for _ in range(2)]
+    return sorted(rng.sample(sorted(set(pool)), n))
 
 
 def gen_policy_cfg(rng, allow_balk=True):
     t = rng.choice(["fifo", "fifo", "lifo", "prio", "prio", "deadline", "deadline", "fair", "wfq", "alifo", "codel",
                     "red", "balk"] if allow_balk else ["fifo", "lifo", "prio"])
     if t in ("fifo", "lifo", "prio"):
-        return {"type": t, "cap": _cap(rng)}
+        return {"type": t, "cap": _cap(rng, zero=True)}      # capacity 0 = no waiting room is a legal configuration
     if t == "deadline":
         return {"type": t, "cap": _cap(rng)}
     if t == "fair":
@@ -173,6 +193,15 @@ def gen_stage(rng, kind, serial, avoid_shift, idx=0):
             start = rng.choice([0, 0, rng.randint(1, 4)])
             shifts = [[start, start + rng.randint(4, 40), 1]]
             default = 1 if start else 0
+        elif rng.random() < 0.3:
+            # boundaries at decimals that do not survive float -> ns; capacity rises (mostly from 0) at such a boundary
+            ts = _ms_times(rng, rng.randint(2, 4))
+            caps = [rng.choice([0, 0, 0, 1])] + [rng.choice([1, 2, 3]) if serial is False else 1 for _ in ts[1:]]
+            shifts = [[0, ts[0], caps[0]]] + [[ts[i], ts[i + 1], caps[i + 1] if i % 2 == 0 else rng.choice([0, caps[i + 1]])]
+                                            for i in range(len(ts) - 1)]
+            default = rng.choice([0, 1, 2]) if not serial else rng.choice([0, 1])
+            return {"kind": kind, "ms": True, "shifts": shifts, "default": default, "policy": gen_policy_cfg(rng),
+                    "svc": {"mode": "const", "ticks": rng.randint(1, 4)}}
         else:
             shifts, t = [], rng.choice([0, 0, rng.randint(1, 6)])
             for _ in range(rng.randint(1, 4)):
@@ -188,10 +217,17 @@ def gen_stage(rng, kind, serial, avoid_shift, idx=0):
     if kind == "batch":
         st = {"kind": kind, "size": rng.randint(1, 5), "proc_ticks": rng.randint(0, 4),
               "timeout_ticks": rng.choice([0, 0, rng.randint(1, 8), rng.randint(1, 8)])}
+        if rng.random() < 0.15:
+            st["ms"] = True
+            st["timeout_ticks"] = rng.choice(BAD_MS[:40])        # ~1.0-2.1 s, truncates below the decimal
         return st
     if kind == "conveyor":
         return {"kind": kind, "transit_ticks": rng.randint(0, 5), "cap": rng.choice([0, 0, 1, 2, 3])}
     if kind == "gate":
+        if rng.random() < 0.2:
+            ts = _ms_times(rng, rng.choice([2, 4]))
+            return {"kind": kind, "ms": True, "schedule": [[ts[i], ts[i + 1]] for i in range(0, len(ts), 2)],
+                    "initially_open": rng.random() < 0.3, "qcap": rng.choice([0, 0, 1, 2, 3])}
         sched, t = [], rng.randint(0, 6)
         for _ in range(rng.randint(0, 3)):
             d = rng.randint(1, 10)
@@ -205,7 +241,9 @@ def _interesting_ticks(stages):
     out = set()
     for st in stages:
         k = st["kind"]
-        if k == "shifted":
+        if st.get("ms"):
+            pass                                    # decimal times: see _ms_instants
+        elif k == "shifted":
             for a, b, _ in st["shifts"]:
                 out.update((a, b))
         elif k == "gate":
@@ -226,6 +264,16 @@ def _interesting_ticks(stages):
     return sorted(out)
 
 
+def _ms_instants(stages):
+    """truncated-nanosecond instants of the decimal boundaries of "ms" stages"""
+    out = []
+    for st in stages:
+        if st.get("ms"):
+            vals = [x for s_ in st.get("shifts", []) for x in s_[:2]] + [x for s_ in st.get("schedule", []) for x in s_]
+            out.extend(int((v / 1000) * 1e9) for v in vals if v)
+    return sorted(set(out))
+
+
 def gen_pipeline(rng, tier, seed):
     # main classes: limits > 1, coinciding instants, capacity changes.  `serial` (every limit 1) and `offgrid`
     # (no two unrelated events share an instant) were avoidance classes while the polling defects were recorded;
@@ -241,7 +289,10 @@ def gen_pipeline(rng, tier, seed):
         stages.append(gen_stage(rng, rng.choice(kinds), serial, avoid, idx=1))
     n = rng.randint(2, 60 if tier == "quick" else 300) if rng.random() < 0.85 else rng.randint(2, 6)
     span = rng.randint(1, 30)
-    cand = sorted({rng.randint(0, span) for _ in range(rng.randint(1, 6))})
+    ms_ns = _ms_instants(stages)
+    if ms_ns:
+        span = ms_ns[-1] // TICK + rng.randint(2, 20)      # the workload has to reach the decimal boundaries
+    cand = sorted({rng.randint(0, span) for _ in range(rng.randint(1, 6) + (3 if ms_ns else 0))})
     hot = [t for t in _interesting_ticks(stages) if t <= span + 20]
     if hot and rng.random() < 0.7:
         cand = sorted(set(cand) | set(rng.sample(hot, min(len(hot), rng.randint(1, 3)))))
@@ -254,6 +305,13 @@ def gen_pipeline(rng, tier, seed):
              "prio": rng.randint(0, 3), "flow": rng.choice(FLOWS), "w": 1 if serial else rng.choice([1, 1, 1, 2, 3]),
              "dl": rng.randint(0, 20), "pat": None if rng.random() < 0.5 else rng.randint(0, 10),
              "svc": rng.choice([0, 1, 1, 2, 3, 5])}
+        if ms_ns and rng.random() < 0.35:
+            # around a decimal boundary: exactly at its (truncated) instant, or shortly before it (backlog at the transition)
+            b = rng.choice(ms_ns)
+            if rng.random() < 0.4:
+                a["tick"], a["off"] = b // TICK, b % TICK
+            else:
+                a["tick"] = max(0, b // TICK - rng.randint(0, 6))
         arrivals.append(a)
     ctl = []
     for si, st in enumerate(stages):
@@ -342,7 +400,7 @@ def _validate_policy(p, depth=0):
     _need(isinstance(p, dict) and "type" in p, "policy")
     t = p["type"]
     cap = p.get("cap")
-    _need(cap is None or _isint(cap, 1), "cap")
+    _need(cap is None or _isint(cap, 0 if t in ("fifo", "lifo", "prio") else 1), "cap")
     if t in ("fifo", "lifo", "prio", "deadline"):
         return
     if t == "fair":
@@ -371,6 +429,7 @@ def _validate_policy(p, depth=0):
 def _validate_stage(st):
     _need(isinstance(st, dict) and st.get("kind") in ALL_KINDS, "stage kind")
     k = st["kind"]
+    _need(isinstance(st.get("ms", False), bool) and (not st.get("ms") or k in ("shifted", "gate", "batch")), "ms flag")
     if k in QR_KINDS:
         _validate_policy(st.get("policy"))
         svc = st.get("svc")
@@ -486,14 +545,17 @@ def _horizon_ticks(sc):
     edge = 0
     for st in sc["stages"]:
         svc = st.get("svc") or {}
+        def tk(v):          # a stage time in ticks (stages marked "ms" give milliseconds)
+            return v * 64 // 1000 + 1 if st.get("ms") else v
+
         step += max([svc.get("ticks", 0)] + list(svc.get("seq", [])) + [st.get("cycle_ticks", 0), st.get("transit_ticks", 0),
-                                                                      st.get("proc_ticks", 0), st.get("timeout_ticks", 0)])
+                                                                      st.get("proc_ticks", 0), tk(st.get("timeout_ticks", 0))])
         if svc.get("mode") == "item":
             step += max(a.get("svc", 1) for a in sc["arrivals"])
         for s in st.get("shifts", []):
-            edge = max(edge, s[1])
+            edge = max(edge, tk(s[1]))
         for s in st.get("schedule", []):
-            edge = max(edge, s[0], s[1])
+            edge = max(edge, tk(s[0]), tk(s[1]))
     return last + edge + (n + 4) * step * len(sc["stages"]) + 64
 
 
